@@ -126,7 +126,7 @@ def build(history: list[tuple[str, ...]], spacing: float, scripts: tuple[list[st
                 dict(id='c1', on='create', script=['ok']), dict(id='u1', on='update', script=scripts[2] if len(scripts) > 2 else ['ok']),
                 dict(id='r1', on='resume', script=scripts[0]), dict(id='r2', on='resume', script=scripts[1]),
                 dict(id='r3', on='resume', script=['ok'], deleted=True), dict(id='r4', on='resume', script=['ok'], deleted=False)]
-    user: list[tuple] = [(1.0, 'create', 'a'), (6.0, 'restart')]
+    user: list[tuple] = [(1.0, 'createbare' if kw.get('bare') else 'create', 'a'), (6.0, 'restart')]     # bare: an object with an EMPTY essence
     t = 6.0
     if late_b:
         user.append((6.5, 'create', 'b'))
@@ -155,6 +155,8 @@ def run(tier: str, seed: int) -> CheckResult:
          (['ok~2'], ['ok']), (['ok~2'], ['temp', 'ok~2'])]     # slow handlers: re-listings and edits land while one is running
     hist = [build(h, sp, sc, late_b=(len(h) <= 1), delays=False, early_user=False, time_dev=False)
             for h in histories(depth) for sp in (1.0, 8.0) for sc in script_sets]
+    hist += [build(h, sp, sc, late_b=False, bare=True, delays=False, early_user=False, time_dev=False)
+             for h in histories(2) for sp in (1.0, 8.0) for sc in script_sets[:2]]
     timing = [build(h, 2.0, script_sets[0], late_b=False, kills=True) for h in histories(1 if tier == 'quick' else 2)]
     if tier == 'quick':
         groups = [('histories', hist, 0, 60.0), ('timing+kills', timing, 1, 40.0)]
